@@ -1437,7 +1437,13 @@ def register_all(M):
     M.add(r"<.* as Deref>::deref", lambda c, m, a: deref(a[0]) if not isinstance(deref(a[0]), (VecBuf, StringBuf)) else (as_str(a[0]) if isinstance(deref(a[0]), StringBuf) else Slice(as_items(a[0]))))
     M.add(r"<(?:usize|u8|u16|u32|u64|i32|i64|isize|bool|char) as Clone>::clone", lambda c, m, a: deref(a[0]))
     M.add(r"<&.* as Clone>::clone", lambda c, m, a: deref(a[0]) if isinstance(a[0], Ref) and isinstance(deref(a[0]), (Str, Slice)) else a[0].loc.get())
-    M.add(r"std::mem::drop::<.*>|core::mem::drop::<.*>", lambda c, m, a: UNIT)
+    M.add(r"std::mem::drop::<.*>|core::mem::drop::<.*>", lambda c, m, a: (getattr(M, "on_drop", None) or (lambda c2, v: None))(c, a[0]) or UNIT)
+    M.add(r"std::mem::forget::<.*>|core::mem::forget::<.*>", lambda c, m, a: UNIT)      # the value never dies
+
+    def process_exit(c, m, a):
+        from mir_exec import Panic
+        raise Panic("std::process::exit(%s): the process ends here, nothing is dropped" % (a[0],))
+    M.add(r"std::process::exit|exit", process_exit)
 
     def box_new_uninit(c, m, a):
         return Agg("Box", None, [Agg("Unique", None, [new_ref(None, True)])])
